@@ -170,8 +170,8 @@ class PositionMonotone(Unit):
         E.assume(i <= j)
         t = (3, 5, 7)                       # a triple on which the two layouts differ
         a, b = OutSocket(), OutSocket()
-        I.call(raw(Position, 'send_with_context'), t, a, ctx_i)
-        I.call(raw(Position, 'send_with_context'), t, b, ctx_j)
+        I.call(I.getattr_(Position, 'send_with_context'), t, a, ctx_i)
+        I.call(I.getattr_(Position, 'send_with_context'), t, b, ctx_j)
         new = wire.be(wire.pack_xzy(*t), 8, False)
         E.check('switch.monotone', Implies(a.out == new, b.out == new),
                 note='once the x|z|y layout is in use it stays in use for all later versions')
